@@ -82,3 +82,10 @@ package mutable
 //@   call (*Record).Copy
 //@     frame nothing
 //@   ensures [skip_only_if_span_outside_range] forall c *WriteChunk :: (msName in old(t.msInfoMap)) && old(t.msInfoMap[msName]) != nil && (id in old(t.msInfoMap[msName].sidMap)) && c == old(t.msInfoMap[msName].sidMap[id]) && c != nil && old(c.WriteRec.lastAppendTime) >= tr.Min && old(c.WriteRec.firstAppendTime) <= tr.Max ==> reached
+
+// The writer side of the span that getSortedRecSafe prunes with: after a row is appended to a series buffer its
+// time lies inside [firstAppendTime, lastAppendTime] - firstAppendTime is the minimum, not the first arrival.
+//@ func (*tsMemTableImpl).appendFields
+//@   requires chunk != nil
+//@   call AppendFieldsToRecord
+//@     requires [span_covers_the_new_row] writeRec.firstAppendTime <= time && time <= writeRec.lastAppendTime
